@@ -87,6 +87,13 @@ def obligations(cls):
             if k == "sub" and t.__type__.__name__ not in permitted:
                 out.append({"kind": "foreign-member-type", "member": t.__type__.__name__})
     out.append({"kind": "undeclared-keyword"})
+    # sequence order also binds list members against their non-list neighbours, and Unsupported children
+    lst = [(a, k, t) for a, k, t in d if k in ("listagg",)]
+    uns = [a for a, k, t in d if k == "unsupported"]
+    if lst:
+        out.append({"kind": "list-member-out-of-order"})
+    if lst and uns:
+        out.append({"kind": "unsupported-between-list-members", "attr": uns[0]})
     for c in CUSTOM.get(name, []):
         out.append({"kind": "custom", "which": c})
     for o in out:
@@ -247,6 +254,33 @@ def build_violation(ob, base=None):
         tree.remove(eb)
         tree.insert(ia[0], eb)
         tree.insert(ib[0], ea)
+    elif kind in ("list-member-out-of-order", "unsupported-between-list-members"):
+        from pbt.checks import c13
+
+        d0 = c13.maximal(cls)
+        tree = D.to_etree(d0)
+        names = [a for a, k, t in M.decl(cls)]
+        members = [c for c in tree if c.tag in {t.__name__ for t in M.member_types(cls).values()}]
+        if kind == "list-member-out-of-order":
+            nonlist = [c for c in tree if c not in members]
+            if not members or not nonlist:
+                return None, None, "skip"
+            m = members[0]
+            # move the first list member to the very front or the very end, whichever crosses a non-list child
+            idx = list(tree).index(m)
+            tree.remove(m)
+            if any(list(tree).index(c) < idx for c in nonlist if c in list(tree)):
+                tree.insert(0, m)
+            else:
+                tree.append(m)
+        else:
+            if len(members) < 2:
+                return None, None, "skip"
+            e = ET.Element(ob["attr"].upper())
+            ET.SubElement(e, "ZZANY").text = "x"
+            tree.insert(list(tree).index(members[1]), e)
+        if not V.tree_violations(tree):
+            return None, None, "skip"
     elif kind == "foreign-member-type":
         desc = _with(cls, [], base)
         permitted = {c.__name__ for c in M.member_types(cls).values()}
@@ -381,6 +415,13 @@ def mutate_tree(tree, muts):
             if leaves:
                 lf = leaves[(a + b) % len(leaves)]
                 lf.text = [lf.text * 40, "ZZ_NOT_A_TOKEN", "99999999999999999999", "Q", "-" + lf.text][b % 5]
+        elif op == 5:  # insert an Unsupported child of the aggregate's class (known to the class, carries no value)
+            cls = M.universe().get(parent.tag)
+            uns = [x for x, k, t in M.decl(cls) if k == "unsupported"] if cls is not None else []
+            if uns:
+                e = ET.Element(uns[b % len(uns)].upper())
+                ET.SubElement(e, "ZZANY").text = "x"
+                parent.insert(b % (len(parent) + 1), e)
         elif op == 4:  # move child to another aggregate
             other = aggs[(a + b + 1) % len(aggs)]
             if other is not parent and kids[i] is not other and other not in list(kids[i].iter()):
@@ -395,10 +436,14 @@ def check_random(case):
         warnings.simplefilter("ignore")
         tree = D.to_etree(case["inst"])
         mutate_tree(tree, case["muts"])
+        tv = V.tree_violations(tree)
         try:
             inst = Aggregate.from_etree(tree)
         except Exception:
             return []
+        if tv:
+            kind = "duplicate-child" if "twice" in tv[0] else "out-of-order"
+            return [(f"invalid-tree-accepted/{kind}", f"{case['inst']['cls']} muts={case['muts']}: {tv[:2]}")]
         vs = V.violations(inst)
         if vs:
             cat = vs[0].split(": ", 1)[1].split(" ")[0:3]
@@ -463,7 +508,7 @@ def _random_worker(job):
         strat = st.builds(
             lambda d, muts: {"regime": "random", "inst": d, "muts": muts},
             M.instance_st(cls, markup=False),
-            st.lists(st.tuples(st.integers(0, 4), st.integers(0, 50), st.integers(0, 50)), min_size=1, max_size=3),
+            st.lists(st.tuples(st.integers(0, 5), st.integers(0, 50), st.integers(0, 50)), min_size=1, max_size=3),
         )
 
         def body(case):
